@@ -88,16 +88,27 @@ def build_api(case, flavour):
     return f
 
 
-def render_ini(case, custom=False):
-    """custom: every range is a [Potential-Form] formula - none of the ranges offers an analytic derivative"""
-    parts = []
-    for j, (ty, s) in enumerate(case["listing"]):
-        rid = j + 1
-        marker = "%s%s " % (ty, repr(s / 2.0))
-        if j == 0 and ty == ">" and s == 0:
-            marker = ""      # a potential written without a leading range marker acts for r > 0 only
-        parts.append("%s%s %d %d %d" % (marker, "quad" if custom else "as.polynomial", 100 * rid, rid + 1, rid + 2))
-    return "[Tabulation]\ntarget : LAMMPS\nnr : 5\ncutoff : 4.0\n\n[Pair]\nA-B : %s\n" % " ".join(parts) + (
+def render_ini(case, custom=False, twin=0):
+    """custom: every range is a [Potential-Form] formula - none of the ranges offers an analytic derivative.
+    twin: the file also defines A-A (1: before, 2: after A-B) with the same forms, parameters and starts but every range marker
+    flipped ('>' <-> '>='): what a range selects belongs to ITS definition, not to another one that looks alike"""
+    def listing(flip):
+        parts = []
+        for j, (ty, s) in enumerate(case["listing"]):
+            rid = j + 1
+            if flip:
+                ty = ">=" if ty == ">" else ">"
+            marker = "%s%s " % (ty, repr(s / 2.0))
+            if j == 0 and ty == ">" and s == 0:
+                marker = ""      # a potential written without a leading range marker acts for r > 0 only
+            parts.append("%s%s %d %d %d" % (marker, "quad" if custom else "as.polynomial", 100 * rid, rid + 1, rid + 2))
+        return " ".join(parts)
+    lines = ["A-B : %s" % listing(False)]
+    if twin == 1:
+        lines.insert(0, "A-A : %s" % listing(True))
+    elif twin == 2:
+        lines.append("A-A : %s" % listing(True))
+    return "[Tabulation]\ntarget : LAMMPS\nnr : 5\ncutoff : 4.0\n\n[Pair]\n%s\n" % "\n".join(lines) + (
         "\n[Potential-Form]\nquad(r, a, b, c) = a + b*r + c*r^2\n" if custom else "")
 
 
@@ -187,9 +198,9 @@ def _one(idx):
         if not bad:
             check_force(case, Potential("A", "B", f), sel, "api", bad, 1e-9 if flav == "analytic" else 1e-4, known)
         if len(case["listing"]) <= 3 or idx % 5 == 0:
-            text = render_ini(case)
+            text = render_ini(case, twin=idx % 3)
             tab = Configuration().read(io.StringIO(text))
-            pot = tab.potentials[0]
+            pot = [p for p in tab.potentials if (p.speciesA, p.speciesB) == ("A", "B")][0]
             g = pot.potentialFunction
             sel2, nq = check_object(case, g, "potable", "analytic", bad, rnd)
             out["queries"] += nq
@@ -207,8 +218,8 @@ def _one(idx):
                     bad.append(("derivative-from-other-range", "r=%s: energy from range #%d but force=%r (that range gives %r)" % (x, rid, pot.force(x), want), "potable"))
                     break
             if not bad:       # the same listing with custom formulas: no range offers a derivative
-                text = render_ini(case, custom=True)
-                pot = Configuration().read(io.StringIO(text)).potentials[0]
+                text = render_ini(case, custom=True, twin=(idx + 1) % 3)
+                pot = [p for p in Configuration().read(io.StringIO(text)).potentials if (p.speciesA, p.speciesB) == ("A", "B")][0]
                 sel3, nq = check_object(case, pot.potentialFunction, "potable-formula", "numeric", bad, rnd)
                 out["queries"] += nq
                 if not bad:
